@@ -71,7 +71,7 @@ class World:
     def apply(self, op):
         k = op[0]
         self.trace.append(k)
-        if k in ('set', 'in_set', 'out_set', 'in_add', 'in_del', 'in_rep', 'out_add', 'out_del', 'out_rep', 'wit'):
+        if k in ('set', 'in_set', 'out_set', 'in_add', 'in_del', 'in_rep', 'out_add', 'out_del', 'out_rep', 'wit', 'wit_slot'):
             e = self.pick(op[1], ('mtx',))
             t, m = e['obj'], e['model']
             if k == 'set':
@@ -134,6 +134,19 @@ class World:
                     return
                 j = op[2] % len(m['vout'])
                 del t.vout[j]; del m['vout'][j]
+            elif k == 'wit_slot':
+                # one slot of a LIST-backed witness (what a default CMutableTransaction carries) filled in place, after the
+                # transaction has been serialised / hashed once
+                from bitcoin.core import CTxWitness, CTxInWitness
+                cur = m['wit'] if m['wit'] is not None else [[] for _ in m['vin']]
+                cur = (cur + [[]] * len(m['vin']))[:len(m['vin'])]
+                t.wit = CTxWitness([CTxInWitness(CScriptWitness(tuple(stk))) for stk in cur])
+                t.serialize(); t.GetHash(); t.GetTxid(); hash(t); t.wit.is_null()
+                i = op[2] % len(cur)
+                items = [bytes.fromhex(x) for x in op[3]]
+                t.wit.vtxinwit[i] = CTxInWitness(CScriptWitness(tuple(items)))
+                cur[i] = items
+                m['wit'] = cur
             elif k == 'wit':
                 w = op[2]
                 m['wit'] = None if w is None else [[bytes.fromhex(x) for x in stk] for stk in (w + [[]] * len(m['vin']))[:len(m['vin'])]]
@@ -319,7 +332,7 @@ class World:
 
 def nontrivial(ops):
     names = [o[0] for o in ops]
-    edits = {'set', 'in_set', 'out_set', 'in_add', 'in_del', 'in_rep', 'out_add', 'out_del', 'out_rep', 'wit', 'part_edit'}
+    edits = {'set', 'in_set', 'out_set', 'in_add', 'in_del', 'in_rep', 'out_add', 'out_del', 'out_rep', 'wit', 'wit_slot', 'part_edit'}
     copies = ('snap', 'copy', 'block', 'part', 'part_copy')
     seen_copy = False
     seen_ids_after_edit = False
@@ -516,6 +529,10 @@ def machine_factory(ctx):
         def wit(self, t, w):
             self.do(['wit', t, w])
 
+        @rule(t=idx, i=idx, items=st.lists(hx(st.binary(max_size=4)), max_size=2))
+        def wit_slot(self, t, i, items):
+            self.do(['wit_slot', t, i, items])
+
         @rule(t=idx, how=st.sampled_from(['from_tx', 'ctor', 'ctor-tuple', 'ctor-iter', 'deser']))
         def snap(self, t, how):
             self.do(['snap', t, how])
@@ -576,7 +593,7 @@ IN_A = ['aa' * 32, 1, '51', 5]
 OUT_A = [9, '52']
 CATALOGUE = [['set', 0, 'version', 2], ['set', 0, 'locktime', 7], ['in_set', 0, 0, 'n', 3], ['in_set', 0, 0, 'hash', 'bb' * 32],
              ['in_set', 0, 0, 'seq', 4], ['in_set', 0, 0, 'script', '5152'], ['out_set', 0, 0, 'value', 8], ['out_set', 0, 0, 'script', '53'],
-             ['in_add', 0, IN_A], ['in_del', 0, 0], ['out_add', 0, OUT_A], ['out_del', 0, 0], ['wit', 0, [['77']]], ['wit', 0, None],
+             ['in_add', 0, IN_A], ['in_del', 0, 0], ['out_add', 0, OUT_A], ['out_del', 0, 0], ['wit', 0, [['77']]], ['wit', 0, None], ['wit_slot', 0, 0, ['88']], ['wit_slot', 0, 0, []],
              ['snap', 0, 'from_tx'], ['snap', 0, 'ctor'], ['snap', 0, 'ctor-tuple'], ['copy', 0], ['copy', 1], ['copy', 0, 'deepcopy'], ['copy', 1, 'deepcopy'], ['copy', 0, 'pickle'], ['ids', 0], ['ids', 1], ['sighash', 0, 0, 3],
              ['bip143', 0, 0, 1], ['block', [0], 5], ['in_set', 1, 0, 'n', 6], ['part', 0, 'in', True, 0], ['part_edit', 0, 6],
              ['in_set', 0, 0, 'prevout', ['cc' * 32, 2]], ['part', 0, 'out', False, 0], ['part_copy', 0, True], ['part_copy', 1, False]]
